@@ -297,8 +297,8 @@ func varintEncodings() [][]byte {
 		out = append(out, enc(v))
 	}
 	out = append(out,
-		[]byte{0x80, 0x00},             // non-minimal zero
-		[]byte{0x82, 0x80, 0x00},       // non-minimal one
+		[]byte{0x80, 0x00},       // non-minimal zero
+		[]byte{0x82, 0x80, 0x00}, // non-minimal one
 		[]byte{0xff, 0xff, 0xff, 0xff, 0xff, 0xff, 0xff, 0xff, 0xff, 0x02},       // overflow in the 10th byte
 		[]byte{0xff, 0xff, 0xff, 0xff, 0xff, 0xff, 0xff, 0xff, 0xff, 0xff, 0x01}, // 11 bytes
 		[]byte{0x80, 0x80, 0x80, 0x80, 0x80, 0x80, 0x80, 0x80, 0x80, 0x80, 0x80, 0x80},
